@@ -1039,8 +1039,8 @@ func init() {
 				for ln, line := range strings.Split(in.doc, "\n") {
 					if at := emptyAngleLink(in.doc, ls, ls+len(line)); at >= 0 && ln < len(in.kinds) && in.kinds[ln] == "inline" {
 						for _, c := range in.cands {
-							if c.ln == ln && c.s > at && !c.def {
-								if !c.whole && c.open && (c.lb < at && onlyEmptyAngle(in.doc[c.lb:c.anchor]) || c.lb > at && !c.nested && c.at.role == "link-syntax") && (c.at.role == "text" || c.at.role == "link-syntax") && rewritable(c.raw) && !in.anySkipped(ls, c.e) {
+							if c.ln == ln && c.s > at && !c.def && c.open {
+								if !c.whole && c.open && (c.lb < at && onlyEmptyAngle(in.doc[c.lb:c.anchor]) || c.lb > at && !c.nested && c.at.role == "link-syntax") && (c.at.role == "text" || c.at.role == "link-syntax") && rewritable(c.raw) && !in.anySkipped(min(c.lb, at), c.e) {
 									out = append(out, c.span)
 								}
 								break
@@ -1063,8 +1063,8 @@ func init() {
 				for ln, line := range strings.Split(in.doc, "\n") {
 					if end := imageInLinkEnd(in.doc, ls, ls+len(line)); end >= 0 && ln < len(in.kinds) && in.kinds[ln] == "inline" {
 						for _, c := range in.cands {
-							if c.ln == ln && c.s > end && !c.def && !c.whole {
-								if c.open && c.lb > end && !c.nested && c.at.role == "link-syntax" && rewritable(c.raw) && !in.anySkipped(ls, c.e) && !strings.Contains(in.doc[ls:c.s], "`") && !strings.Contains(in.doc[ls:c.s], "<>") {
+							if c.ln == ln && c.s > end && !c.def && !c.whole && c.open {
+								if c.open && c.lb > end && !c.nested && c.at.role == "link-syntax" && rewritable(c.raw) && !in.anySkipped(end, c.e) && !in.skippedAt(end-1) && !strings.Contains(in.doc[ls:c.s], "`") && !strings.Contains(in.doc[ls:c.s], "<>") {
 									out = append(out, c.span)
 								}
 								break
@@ -1179,7 +1179,7 @@ func emptyAngleLink(doc string, from, to int) int {
 }
 
 // imageInLinkEnd: the end of the description of the first image that goldmark sees inside a
-// link (-1: none)
+// link's text, or of the first link or image inside an image's description (-1: none)
 func imageInLinkEnd(doc string, from, to int) int {
 	v := parsed(doc)
 	if v == nil {
@@ -1187,10 +1187,11 @@ func imageInLinkEnd(doc string, from, to int) int {
 	}
 	end := -1
 	gast.Walk(v.doc, func(n gast.Node, entering bool) (gast.WalkStatus, error) {
-		if img, ok := n.(*gast.Image); ok && entering && end < 0 {
+		if k := n.Kind(); (k == gast.KindImage || k == gast.KindLink) && entering && end < 0 {
+			img := n
 			inLink := false
 			for p := n.Parent(); p != nil; p = p.Parent() {
-				if p.Kind() == gast.KindLink {
+				if p.Kind() == gast.KindLink && k == gast.KindImage || p.Kind() == gast.KindImage {
 					inLink = true
 				}
 			}
@@ -1204,9 +1205,9 @@ func imageInLinkEnd(doc string, from, to int) int {
 					}
 					return gast.WalkContinue, nil
 				})
-				if e < 0 {
-					if i := strings.Index(doc[from:to], "!["); i >= 0 {
-						e = from + i + 2
+				if e < 0 { // an empty description: the first `](` of the line ends it
+					if i := strings.Index(doc[from:to], "]("); i >= 0 {
+						e = from + i
 					}
 				}
 				if e >= from && e <= to {
@@ -1219,8 +1220,8 @@ func imageInLinkEnd(doc string, from, to int) int {
 	return end
 }
 
-// codeSpanStraddlesHTML: goldmark sees a code span of which exactly one delimiter lies inside
-// what the HTML state machine skips
+// codeSpanStraddlesHTML: goldmark sees a code span of which a delimiter lies inside what the
+// HTML state machine skips (so that a reader in that state does not see the code span)
 func codeSpanStraddlesHTML(in *docInfo, from, to int) bool {
 	v := parsed(in.doc)
 	if v == nil {
@@ -1247,7 +1248,7 @@ func codeSpanStraddlesHTML(in *docInfo, from, to int) bool {
 				for b < len(in.doc)-1 && in.doc[b] != '`' {
 					b++
 				}
-				if a >= from && b < to && in.skippedAt(a) != in.skippedAt(b) {
+				if a >= from && b < to && (in.skippedAt(a) || in.skippedAt(b)) {
 					found = true
 				}
 			}
